@@ -118,11 +118,26 @@ def rule_R2(ck):
                 if not latched and kind == "raises":
                     ck.violation(where, f"no error was reported, yet leaving the scope raises {val} (block left with {exc}): a warnings-only run fails", construct=f"unlatched scope raises (swallow={swallow}, exc={exc})")
     # writer/reader agreement: emit_report sets the flag of handlers_stack[-1]; __enter__ pushes self
-    fn = repo.func("reports::emit_report")
-    txt = norm_text(fn)
-    ck.instance("latch-object", None, fn="reports::emit_report")
-    if "handlers_stack[-1]" not in txt:
-        ck.violation("reports::emit_report", "the error flag is not set on the innermost active report scope", construct="latch object")
+    # (decided by abstract execution with two nested scopes)
+    I3 = eager_interp(repo)
+    I3.summaries = {k: v for k, v in I3.summaries.items() if k != "reports::emit_report"}
+    calls = []
+
+    def nested():
+        del calls[:]
+        mk = lambda tag: I3.instantiate(I3.module_get("reports", "handle_reports"), [PyFn(lambda I_, a, k, tag=tag: calls.append(tag), "handler-" + tag)], {})
+        outer, inner = mk("outer"), mk("inner")
+        I3.call_method(outer, "__enter__", [])
+        I3.call_method(inner, "__enter__", [])
+        C = I3.module_get("context", "Context")
+        c0 = I3.instantiate(C, ["a.mac", "x\n"], {})
+        I3.call(I3.module_get("reports", "error"), ["some-id", (c0, c0, "text")], {})
+        return inner.fields.get("is_error_condition"), outer.fields.get("is_error_condition"), list(calls)
+    ps = I3.explore(nested)
+    ck.instance("latch-object", {"nested scopes: inner flag, outer flag, handlers called": repr(ps[0].value)}, fn="reports::emit_report")
+    if len(ps) != 1 or ps[0].kind != "return" or ps[0].value != (True, False, ["inner"]):
+        ck.violation("reports::emit_report", f"with two nested report scopes an error gives (inner flag, outer flag, handlers called) = {ps[0].value!r}; expected (True, False, ['inner']): "
+                                             "the error flag is not set on the innermost active report scope", construct="latch object")
     # FilterHandler.__exit__ returns False when the nested handler has no __exit__ (the two CLI handlers have none)
     for h in ("BareHandler", "GraphicalHandler"):
         cls = repo.cls(f"reports::{h}")
@@ -207,9 +222,20 @@ def rule_R3(ck):
             scope = n
     if scope is None:
         raise Unknown("main_cli: the report scope around compile_and_link_files was not found")
+    # helpers reached only from emit_files (transitively) write on its behalf
+    emit_helpers, changed = set(), True
+    while changed:
+        changed = False
+        for hq, hfn in repo.all_functions():
+            if hq in emit_helpers or hq == "compiler::Compiler.emit_files" or not isinstance(hfn, ast.FunctionDef) or hq.split("::")[0] != "compiler":
+                continue
+            callers = {c for c, _ in guards.callers_of(repo, hfn)}
+            if callers and all(c == "compiler::Compiler.emit_files" or c in emit_helpers for c in callers):
+                emit_helpers.add(hq)
+                changed = True
     for q, n, what in sites:
         ck.instance(("write", q, what, n.lineno), {"site": q, "effect": what}, fn=q)
-        if q == "compiler::Compiler.emit_files":
+        if q == "compiler::Compiler.emit_files" or q in emit_helpers:
             continue
         if q == "_cli::main_cli":
             if n.lineno <= scope.end_lineno:
